@@ -201,7 +201,7 @@ def _entry_agreement(ctx, L):
 
     ctx.rule("C01.entry-agreement", "thorough tier, every non-Cartesian table entry (not only the frozen bases): " + denote.RULE_DOC)
     shorts = [L.short(mn) for mn in L.mods if L.short(mn).split(".")[1] not in denote.COMPARISON_POLICY]
-    jobs = min(16, os.cpu_count() or 1)
+    jobs = min(int(os.environ.get("VERIF_JOBS", "16")), os.cpu_count() or 1)
     n = proved = 0
     undecided = []
     with cf.ProcessPoolExecutor(max_workers=jobs) as ex:
